@@ -267,11 +267,12 @@ where
             let random = tape.bytes(900 + mi as u64, rand_len);
             let casej = || json!({"ctor": ctor, "case": case.name, "aggs": na, "tape": tname, "measurement_index": mi});
             let a = pvh::engine::catch(|| lib.shard_with_random(&ctx, m, &nonce, &random));
-            let b = reference.shard_with_random(&ctx, m, &nonce, &random);
+            let b = pvh::engine::catch(|| reference.shard_with_random(&ctx, m, &nonce, &random));
             let ((ps_a, sh_a), (ps_b, sh_b)) = match (a, b) {
-                (Ok(Ok(a)), Ok(b)) => (a, b),
-                (a, _) => {
-                    run.fail(&format!("{key}/shard"), &format!("{ctor}: sharding an in-range measurement of {} failed: {:?}", case.name, a.map(|r| r.map(|_| ()).map_err(|e| e.to_string()))), casej());
+                (Ok(Ok(a)), Ok(Ok(b))) => (a, b),
+                (a, b) => {
+                    let show = |r: Result<Result<_, prio::vdaf::VdafError>, String>| r.map(|r: Result<(_, Vec<_>), _>| r.map(|_| ()).map_err(|e| e.to_string()));
+                    run.fail(&format!("{key}/shard"), &format!("{ctor}: sharding an in-range measurement of {} failed: constructor-built instance {:?}, Prio3::new(.., clone of the type) {:?}", case.name, show(a), show(b)), casej());
                     return;
                 }
             };
